@@ -1,6 +1,7 @@
 SPECIFICATION Spec
 CONSTANTS
   TcCode = TRUE
+  PathKinds = {"empty", "scion1"}
   Fills = {90}
 INVARIANTS Exact
 CHECK_DEADLOCK FALSE
